@@ -1330,3 +1330,58 @@ def rf71(run, units=('mir',), only=None):
                                   'match, and then `%s` at line %d uses the NULL cursor (an assertion in between is compiled out): a crash instead of '
                                   'the intended handling' % (x, l['l'], F.src(bad)[:60], bad['l']), line=bad['l'])
     return n
+
+
+# ---------------------------------------------------------------------------------------------
+# RF18b: opcode classifiers that license a rewrite into a different instruction admit no overflow producer
+# ---------------------------------------------------------------------------------------------
+REWRITE_CLASSIFIERS = {
+    # function: what the rewrite does with an instruction the classifier accepts
+    'add_sub_const_insn_p': 'GVN replaces `r2 = r1 + c2` after `r1 = r0 + c` by `r2 = r0 + (c + c2)` computed by a plain ADD',
+}
+
+
+def rf18b(run):
+    rule = 'RF18b'
+    run.rule(rule, 'generator: a classifier whose positive answer lets GVN replace the instruction by a different computation of the same value '
+                   '(add_sub_const_insn_p: chains of constant additions) accepts, by evaluation of its opcode guard over all opcodes, no '
+                   'overflow-flag producer: the replacement computes the value but not the flags of the original operation, and the '
+                   'original becomes dead')
+    gen = run.tu('gen')
+    preds = EF.Predicates(gen)
+    uni = frozenset(v for nm, v in gen.enum('MIR_insn_code_t'))
+    ovf = preds.true_set('MIR_overflow_insn_code_p', uni)
+    if not ovf:
+        raise F.AnalysisBroken('MIR_overflow_insn_code_p not evaluable')
+    names = {}
+    for nm, v in gen.enum('MIR_insn_code_t'):
+        names.setdefault(v, nm)
+    n = 0
+    for fn, what in sorted(REWRITE_CLASSIFIERS.items()):
+        f = gen.func(fn)
+        run.functions_analysed.add(('gen', fn))
+        guard = None
+        for st in F.kids(f.body):
+            if st['k'] == 'IfStmt' and 'code' in F.src(st['c'][0]):
+                rets = [x for x in F.walk(st['c'][1]) if x['k'] == 'ReturnStmt']
+                if rets and all(F.kids(r_) and F.const_value(F.kids(r_)[0]) == 0 for r_ in rets):
+                    guard = st
+                    break
+        if guard is None:
+            raise F.AnalysisBroken('%s: leading opcode guard not found' % fn)
+        keys = sorted({F.src(y) for y in F.walk(guard['c'][0]) if y['k'] == 'MemberExpr' and y['n'] == 'code'})
+        accepted = set()
+        for v in uni:
+            r = preds.eval(guard['c'][0], {k: v for k in keys}, frozenset())
+            if r is None:
+                raise F.AnalysisBroken('%s: opcode guard not evaluable for %s' % (fn, names[v]))
+            if not r:
+                accepted.add(v)
+        bad = accepted & ovf
+        n += 1
+        run.ob(rule, (fn,), not bad, {'classifier': fn, 'accepted opcodes': sorted(names[v] for v in accepted), 'overflow producers among them': sorted(names[v] for v in bad)})
+        if bad:
+            run.violation(rule, f, 'classifier accepts %s' % '/'.join(sorted(names[v] for v in bad)), '%s accepts %s: %s; a following BO/BNO/UBO/UBNO then '
+                          'tests the overflow of the combined constant instead of the original operation' % (fn, '/'.join(sorted(names[v] for v in bad)), what),
+                          line=guard['l'])
+    return n
